@@ -18,7 +18,7 @@ def run_c13(tier):
     rep = C.Report('C13', tier)
     b = C.make('engines/seqx/Makefile', 'plain')
     depth = 5 if tier == 'thorough' else 4
-    dl = C.deadline_s(3000 if tier == 'thorough' else 600)
+    dl = C.deadline_s(1800 if tier == 'thorough' else 600)
     rc, d, err = _run_json([f'{b}/c13_props', '--depth', str(depth), '--max-states', '30000000', '--deadline', str(dl * 0.9)], dl + 120)
     if d is None:
         rep.violation('C13:engine-crash', f'c13_props ended with status {rc} without a verdict (a crash inside a property function corrupts the heap): {err}', {'engine': 'seqx/c13_props', 'depth': depth})
@@ -61,7 +61,7 @@ def _simple(pid, tier, exe, argsets, rule, assumptions, timeout=None):
     rep = C.Report(pid, tier)
     b = C.make('engines/seqx/Makefile', 'plain')
     cmds = [[f'{b}/{exe}', *a] for a in argsets]
-    res = C.run_parallel(cmds, timeout=timeout or C.deadline_s(3000 if tier == 'thorough' else 600))
+    res = C.run_parallel(cmds, timeout=timeout or C.deadline_s(1800 if tier == 'thorough' else 600))
     tot, samples, per, exhaustive = {}, [], [], True
     for a, (rc, so, se) in zip(argsets, res):
         try:
@@ -147,7 +147,7 @@ def run_c12(tier):
         for sh in range(nsh):
             cmds.append([f'{d}/c12_select', '--maxlen', str(ml), '--shard', f'{sh}/{nsh}'])
             names.append('+'.join(present) or '(no driver library)')
-    res = C.run_parallel(cmds, timeout=C.deadline_s(3000 if tier == 'thorough' else 600))
+    res = C.run_parallel(cmds, timeout=C.deadline_s(1800 if tier == 'thorough' else 600))
     tot, per, samples, ex = {}, [], [], True
     for name, cmd, (rc, so, se) in zip(names, cmds, res):
         try:
@@ -186,7 +186,7 @@ def run_c17(tier):
     b = C.bdir('asan')
     nsh = 8
     cmds = [[f'{b}/c17_simcam.{v}', '--tier', tier, '--shard', f'{i}/{nsh}'] for v in ('avx2', 'plain') for i in range(nsh)]
-    res = C.run_parallel(cmds, timeout=C.deadline_s(3000 if tier == 'thorough' else 600))
+    res = C.run_parallel(cmds, timeout=C.deadline_s(1800 if tier == 'thorough' else 600))
     tot, samples, per, ex = {}, [], [], True
     for cmd, (rc, so, se) in zip(cmds, res):
         try:
